@@ -230,6 +230,9 @@ pub struct Shadow {
     pub signal_depth: u32,
     /// raise signal 9 when pop_edges of an object of this rank class starts (0 = off)
     pub signal_pop_class: u32,
+    /// content (pointer and tag bits) each cell was left with by the last store/swap on it, as
+    /// long as no compare-exchange could have written it since
+    pub cell_word: std::collections::HashMap<usize, usize>,
     pub debug_watch: Option<u32>,
     pub debug_last: u64,
     pub watch_obj: Option<u32>,
@@ -298,6 +301,7 @@ impl Shadow {
             dtor_stack: Vec::new(),
             signal_depth: 0,
             signal_pop_class: 0,
+            cell_word: std::collections::HashMap::new(),
             debug_watch: std::env::var("VERIF_WATCH").ok().and_then(|s| s.parse().ok()),
             debug_last: 0,
             watch_obj: None,
@@ -404,7 +408,8 @@ impl Shadow {
             // every token was acquired from a library return value: more releases than acquisitions
             // means the library handed out an owner that no count stands for
             let det = format!("strong owners of #{} released more often than the library handed them out (an operation returned an owner that nothing paid for)", o);
-            sim().violation(&format!("C04{}", self.strong_extra), "owner-conjured", "owner-conjured/strong", &det);
+            // (a count that is too low is a destruct under an owner waiting to happen: C01)
+            sim().violation(&format!("C04,C01{}", self.strong_extra), "owner-conjured", "owner-conjured/strong", &det);
         }
         if ob.strong == 0 {
             ob.ever_unowned = true;
@@ -424,7 +429,7 @@ impl Shadow {
         ob.weak -= n;
         if ob.weak < 0 {
             let det = format!("weak owners of #{} released more often than the library handed them out (an operation returned an owner that nothing paid for)", o);
-            sim().violation(&format!("C04{}", self.weak_extra), "owner-conjured", "owner-conjured/weak", &det);
+            sim().violation(&format!("C04,C03{}", self.weak_extra), "owner-conjured", "owner-conjured/weak", &det);
         }
     }
 
@@ -836,7 +841,13 @@ impl Monitor for RcMonitor {
                     sh.last_global_read[tid] = (read_word(addr) >> 1) as u64;
                 }
             }
+            site::AW_CAS | site::AW_CAS_WEAK | site::AW_CAS_TAG => {
+                // a compare-exchange may write the cell: what the last store/swap left is no
+                // longer known to be its content
+                sh.cell_word.remove(&addr);
+            }
             site::ARC_CAS | site::ARC_CAS_WEAK | site::ARC_CAS_TAG => {
+                sh.cell_word.remove(&addr);
                 // predicted outcome: the CAS succeeds iff the cell holds exactly `expected`
                 let cur = read_word(addr);
                 if cur == a {
@@ -951,6 +962,25 @@ impl Monitor for RcMonitor {
             kind::CAS_STAMP_RETRY => sim().probe("cas_stamp_retry"),
             kind::LINK_SWAPPED => {
                 // a = cell, b = previous word, c = 0 AtomicRc::store | 1 AtomicRc::swap | 2 AtomicWeak::store | 3 AtomicWeak::swap
+                // The content a store/swap takes over must be what the cell held the instant
+                // before it wrote: a write based on an older reading releases (or returns) an owner
+                // that is not the cell's any more and drops the one that is.
+                let mask = sh.addr_mask | sh.tag_mask;
+                if let Some(&prev) = sh.cell_word.get(&a) {
+                    if (prev ^ b) & mask != 0 {
+                        let what = ["AtomicRc::store", "AtomicRc::swap", "AtomicWeak::store", "AtomicWeak::swap"][c.min(3)];
+                        let det = format!(
+                            "{} on the cell at {:#x} took over the content {:#x} although the cell held {:#x} when it wrote (the write is not one atomic exchange)",
+                            what, a, b & mask, prev & mask
+                        );
+                        if c <= 1 {
+                            sh.soft(&format!("C08,C01,C04{}", sh.strong_extra), "write-took-over-stale-content", det);
+                        } else {
+                            sh.soft(&format!("C09,C03,C04{}", sh.weak_extra), "write-took-over-stale-content", det);
+                        }
+                    }
+                }
+                sh.cell_word.insert(a, read_word(a));
                 match c {
                     0 => {
                         if let Some(o) = sh.obj_of_word(b) {
